@@ -262,6 +262,82 @@ def _limits_shard(shard, n, tier, seed, budget_s):
     rep["digests"] = len(rep["digests"])
     return rep
 
+# ---- control-flow nesting grid: loops x stacks of enclosing constructs x ways of leaving -----------------
+def _ind(lines, k=1):
+    return ["  " * k + l for l in lines]
+WRAPPERS = {
+    "try": lambda b: ["try"] + _ind(b) + ["catch e_", "  acc.push 'c'"],
+    "try-finally": lambda b: ["try"] + _ind(b) + ["catch e_", "  acc.push 'c'", "finally", "  acc.push 'f'"],
+    "in-catch": lambda b: ["try", "  throw 'x'", "catch e_"] + _ind(b),
+    "in-finally": lambda b: ["try", "  acc.push 't'", "catch e_", "  acc.push 'c'", "finally"] + _ind(b),
+    "if": lambda b: ["if i >= 0"] + _ind(b),
+    "match": lambda b: ["match i", "  -1 then", "    acc.push 'm'", "  x_ then"] + _ind(b, 2),
+    "for": lambda b: ["for j_ in 0..2"] + _ind(b),
+}
+EXITS = ["break", "break i", "continue", "return acc", "throw 'boom'", "acc.push 'none'"]
+LOOPS = ["for", "while", "until", "loop"]
+
+def cf_program(loop, stack, exit_stmt):
+    body = ["acc.push i", "if i == 1", "  " + exit_stmt, "acc.push 'after'"]
+    for wname in reversed(stack):
+        body = WRAPPERS[wname](body)
+    if loop == "for":
+        lines = ["for i in 0..3"] + _ind(body)
+    else:
+        head = {"while": "while k < 3", "until": "until k >= 3", "loop": "loop"}[loop]
+        pre = ["i = k", "k += 1"] + (["if i >= 3", "  break"] if loop == "loop" else [])
+        lines = ["k = 0", head] + _ind(pre + body)
+    fn = ["f = ||", "  acc = []"] + _ind(lines) + ["  acc.push 'end'", "  acc"]
+    return "\n".join(fn + ["r = try", "  f()", "catch e", "  'E'", "print r"]) + "\n"
+
+def cf_stacks(tier, rng):
+    import itertools
+    names = sorted(WRAPPERS)
+    for d in (1, 2, 3):
+        for st in itertools.product(names, repeat=d):
+            yield st
+    if tier == "thorough":
+        for st in itertools.product(names, repeat=4):
+            yield st
+    else:
+        for _ in range(150):
+            yield tuple(rng.choice(names) for _ in range(4))
+
+def _cf_shard(shard, n, tier, seed, budget_s):
+    """Every program the compiler accepts goes through the chunk checker (builder / try balance at every join, incl. the back edge a
+    `continue` takes and the exit a `break` takes out of nested try blocks) and runs under the instruction observer; the four loop
+    spellings of the same body must print the same list."""
+    w = Worker()
+    rep = _new_rep()
+    rep["loop_kind_comparisons"] = 0
+    rng = rng_for(seed, "c05-cf")
+    cells = [(st, ex) for st in cf_stacks(tier, rng) for ex in EXITS]
+    for idx, (st, ex) in enumerate(cells):
+        if idx % n != shard:
+            continue
+        outs = {}
+        for loop in LOOPS:
+            src = cf_program(loop, st, ex)
+            rep["evaluations"] += 1
+            r = w.exec(src, timeout=10, limit_ms=2000, determinism=2)
+            _judge(rep, src, r, "cf %s / %s / %s" % (loop, "+".join(st), ex))
+            o = r.get("outcome")
+            if o == "panic" and not (r.get("panic") or {}).get("excluded"):
+                rep["violations"].append({"key": panic_key(r), "summary": "panic in the control-flow grid: %s" % (r.get("panic") or {}).get("message", "")[:100], "case": {"src": src}})
+            outs[loop] = (o, (r.get("stdout") or "").strip()) if o in ("ok", "runtime_error", "compile_error") else None
+        vals = [v for v in outs.values() if v is not None]
+        if len(vals) == len(LOOPS):
+            rep["loop_kind_comparisons"] += 1
+            if len(set(vals)) > 1:
+                rep["violations"].append({"key": "cf-loop-kinds:%s" % sha("+".join(st) + ex), "summary": "for / while / until / loop over the same body (%s, leaving with `%s`) print different results: %r" % ("+".join(st), ex, outs),
+                                          "case": {"src": cf_program("for", st, ex), "other": cf_program("while", st, ex), "outs": outs}})
+        if len(rep["samples"]) < 1 and len(st) == 3:
+            rep["samples"].append({"origin": "cf for / %s / %s" % ("+".join(st), ex), "src": cf_program("for", st, ex), "stdout": outs.get("for")})
+    w.close()
+    rep["distinct"] = len(rep["distinct"])
+    rep["digests"] = len(rep["digests"])
+    return rep
+
 def run(tier, seed):
     chk = Check(PID, tier, seed)
     if not chk.build():
@@ -269,7 +345,7 @@ def run(tier, seed):
     quick = tier == "quick"
     cov = {"evaluations": 0, "distinct_nontrivial": 0, "samples": [], "streams": {}}
     only = os.environ.get("KV_STREAMS")
-    for name, fn, budget in [("corpus", _corpus_shard, 30 if quick else 900), ("limits", _limits_shard, 600)]:
+    for name, fn, budget in [("corpus", _corpus_shard, 30 if quick else 900), ("limits", _limits_shard, 600), ("control-flow", _cf_shard, 600)]:
         if only and name not in only.split(","):
             continue
         shards = fan_out(fn, tier=tier, seed=seed, budget_s=budget)
@@ -279,7 +355,7 @@ def run(tier, seed):
             if "harness_error" in s:
                 continue
             for k in ("evaluations", "distinct", "compiled", "ran", "bodies", "instructions", "vm_instructions", "hangs", "excluded", "rejected", "digests",
-                      "cross_process", "limit_points", "limit_rejected"):
+                      "cross_process", "limit_points", "limit_rejected", "loop_kind_comparisons"):
                 if k in s:
                     st[k] = st.get(k, 0) + s[k]
             cov["samples"] += s["samples"][:1] if len(cov["samples"]) < 6 else []
@@ -292,7 +368,9 @@ def run(tier, seed):
                    "the CFG), compiled 3x in-process (byte/constant/source-map equality) and a sample again in a second process, and - when it "
                    "touches neither io nor os - executed under the instruction observer (ip on a decoded boundary, no error instruction, register "
                    "window) with internal-fault classification of the resulting error; (b) %d size-scaled families x a grid around every encoding "
-                   "edge: each point must be rejected with a compile error or compile to a well-formed chunk that prints the known value. "
+                   "edge: each point must be rejected with a compile error or compile to a well-formed chunk that prints the known value; (c) control-flow nesting grid: 4 loop spellings x every stack of depth 1-3 (thorough: 1-4; quick: +150 sampled depth-4 stacks) of 7 enclosing constructs "
+                   "(try, try-finally, catch body, finally body, if, match arm, inner for) x 6 ways of leaving (break, break value, continue, return, throw, none): chunk checker incl. try/builder balance at every join and back edge, instruction observer, "
+                   "and the four loop spellings must print the same list. "
                    "distinct = distinct texts with >= 3 instructions." % ("seeded 20% slice" if quick else "complete enumeration", len(FAMILIES)))
     return chk.finish(cov, assumptions=["the public InstructionReader is the decoder the VM uses (a consistently wrong encoder/decoder pair is invisible structurally, visible behaviourally)",
                                          "limit families have outcomes that are obvious by construction (sums, sizes)"])
